@@ -395,7 +395,7 @@ func c01Case(r *ev.Run, p *prng.R, batch, ci int) {
 				r.Violation("C01/client-disconnected-by-notification", "the client dropped its connection while processing a legal notification stream", wit(nil))
 				return
 			}
-			if batch == 0 && ci == 0 && r.NeedSample() && len(kl) > 0 {
+			if r.NeedSample() && len(kl) > 0 {
 				r.Sample(wit(map[string]interface{}{"changes": kl, "by": who}))
 			}
 		}
